@@ -42,13 +42,13 @@ theorem dec_single (n d : Nat) (h : dec n = [d]) : n + 48 = d := by
   omega
 
 theorem encode2List_bulk_cons (a : Bytes) (as : List Bytes) :
-    encode2List ((a :: as).map Val.bulk) =
-      36 :: (dec a.length ++ 13 :: 10 :: (a ++ 13 :: 10 :: encode2List (as.map Val.bulk))) := by
-  simp [encode2List, encode2, crlf]
+    encode2ListS true ((a :: as).map Val.bulk) =
+      36 :: (dec a.length ++ 13 :: 10 :: (a ++ 13 :: 10 :: encode2ListS true (as.map Val.bulk))) := by
+  simp [encode2ListS, encode2S, crlf]
 
 theorem encCmd_eq (c : Cmd) :
-    encCmd c = 42 :: (dec c.length ++ 13 :: 10 :: encode2List (c.map Val.bulk)) := by
-  simp [encCmd, cmdFrame, encode2, crlf]
+    encCmd c = 42 :: (dec c.length ++ 13 :: 10 :: encode2ListS true (c.map Val.bulk)) := by
+  simp [encCmd, cmdFrame, encode2, encode2S, crlf]
 
 /-- a frame that starts like `*2\r\n$3\r\n…` or `*3\r\n$3\r\n…` has, at offset 13, the `$` of its
     second argument and at offset 14 a decimal digit -/
@@ -58,7 +58,7 @@ theorem frame_shape (c : Cmd) (more : Bytes) (n0 : Nat) (hn0 : n0 = 50 ∨ n0 = 
       ∧ 48 ≤ d ∧ d ≤ 57 := by
   rw [encCmd_eq] at h ⊢
   -- the element count
-  have h1 : ∃ y, dec c.length ++ 13 :: 10 :: (encode2List (c.map Val.bulk) ++ more) = n0 :: 13 :: y := by
+  have h1 : ∃ y, dec c.length ++ 13 :: 10 :: (encode2ListS true (c.map Val.bulk) ++ more) = n0 :: 13 :: y := by
     cases hd : dec c.length with
     | nil => exact absurd hd (dec_ne_nil _)
     | cons d1 ds =>
@@ -81,7 +81,7 @@ theorem frame_shape (c : Cmd) (more : Bytes) (n0 : Nat) (hn0 : n0 = 50 ∨ n0 = 
     rw [encode2List_bulk_cons] at h ⊢
     simp only [List.cons_append, List.nil_append, List.append_assoc, List.take_succ_cons] at h
     -- length of the first argument
-    have h2 : ∃ y, dec a1.length ++ 13 :: 10 :: (a1 ++ 13 :: 10 :: (encode2List ((a2 :: as).map Val.bulk) ++ more)) = 51 :: 13 :: y := by
+    have h2 : ∃ y, dec a1.length ++ 13 :: 10 :: (a1 ++ 13 :: 10 :: (encode2ListS true ((a2 :: as).map Val.bulk) ++ more)) = 51 :: 13 :: y := by
       cases hd : dec a1.length with
       | nil => exact absurd hd (dec_ne_nil _)
       | cons d1 ds =>
@@ -138,8 +138,8 @@ theorem recog_dead_aux (buf rest more : Bytes) (c : Cmd) (hdr : Bytes) (n0 : Nat
   rw [e1, e2, h, hshape]
   simp
 
-theorem recogGet_dead (buf rest more : Bytes) (c : Cmd) (h : buf ++ rest = encCmd c ++ more) :
-    recogGet 14 buf = .notFast ∨ (recogGet 14 buf = .needMore ∧ buf.length < (encCmd c).length) := by
+theorem recogGet_dead (ck : Bool) (buf rest more : Bytes) (c : Cmd) (h : buf ++ rest = encCmd c ++ more) :
+    recogGet 14 ck buf = .notFast ∨ (recogGet 14 ck buf = .needMore ∧ buf.length < (encCmd c).length) := by
   unfold recogGet
   by_cases hs : (startsWith buf getHdrU || startsWith buf getHdrL) = true
   · have haux : 15 ≤ (encCmd c).length ∧ (15 ≤ buf.length → ∃ d, (buf.drop 14).head? = some d ∧ d ≠ 36) := by
@@ -156,8 +156,8 @@ theorem recogGet_dead (buf rest more : Bytes) (c : Cmd) (h : buf ++ rest = encCm
       simp [hd, hne]
   · left; simp [hs]
 
-theorem recogSet_dead (buf rest more : Bytes) (c : Cmd) (h : buf ++ rest = encCmd c ++ more) :
-    recogSet 14 buf = .notFast ∨ (recogSet 14 buf = .needMore ∧ buf.length < (encCmd c).length) := by
+theorem recogSet_dead (ck : Bool) (buf rest more : Bytes) (c : Cmd) (h : buf ++ rest = encCmd c ++ more) :
+    recogSet 14 ck buf = .notFast ∨ (recogSet 14 ck buf = .needMore ∧ buf.length < (encCmd c).length) := by
   unfold recogSet
   by_cases hs : (startsWith buf setHdrU || startsWith buf setHdrL) = true
   · have haux : 15 ≤ (encCmd c).length ∧ (15 ≤ buf.length → ∃ d, (buf.drop 14).head? = some d ∧ d ≠ 36) := by
@@ -174,12 +174,12 @@ theorem recogSet_dead (buf rest more : Bytes) (c : Cmd) (h : buf ++ rest = encCm
       simp [hd, hne]
   · left; simp [hs]
 
-theorem recogGet_nil : recogGet 14 [] = .notFast := rfl
-theorem recogSet_nil : recogSet 14 [] = .notFast := rfl
+theorem recogGet_nil (ck : Bool) : recogGet 14 ck [] = .notFast := rfl
+theorem recogSet_nil (ck : Bool) : recogSet 14 ck [] = .notFast := rfl
 
 /-! ### the generic decoder on command frames -/
 
-theorem wfList_bulk (mem : Nat) (c : Cmd) : Val.wfList codec1 mem (c.map Val.bulk) = true := by
+theorem wfList_bulk (c : Cmd) : Val.wfList codec1 (c.map Val.bulk) = true := by
   induction c with
   | nil => simp [Val.wfList]
   | cons a as ih => simp [Val.wfList, Val.wf, ih]
@@ -189,8 +189,18 @@ theorem depthList_bulk (c : Cmd) : Val.depthList (c.map Val.bulk) ≤ 1 := by
   | nil => simp [Val.depthList]
   | cons a as ih => simp [Val.depthList, Val.depth]; omega
 
-/-- the machine can decode the command: two stack frames, the pre-allocation is granted -/
-def CmdOK (env : Env) (c : Cmd) : Prop := 2 ≤ env.depth ∧ fits codec1 env.mem c.length = true
+theorem arrList_bulk (c : Cmd) : Val.arrList (c.map Val.bulk) = 0 := by
+  induction c with
+  | nil => simp [Val.arrList]
+  | cons a as ih => simp [Val.arrList, Val.arr, ih]
+
+theorem sanList_bulk (c : Cmd) : Val.sanList (c.map Val.bulk) = c.map Val.bulk := by
+  induction c with
+  | nil => simp [Val.sanList]
+  | cons a as ih => simp [Val.sanList, Val.san, ih]
+
+/-- the machine can decode a command frame: two stack frames -/
+def CmdOK (env : Env) (_c : Cmd) : Prop := 2 ≤ env.depth
 
 instance (env : Env) (c : Cmd) : Decidable (CmdOK env c) := by unfold CmdOK; infer_instance
 
@@ -198,14 +208,13 @@ instance (env : Env) (c : Cmd) : Decidable (CmdOK env c) := by unfold CmdOK; inf
 theorem parse1_frame (env : Env) (c : Cmd) (rest : Bytes) (hok : CmdOK env c)
     (hs : Small (encCmd c ++ rest)) :
     (parse1 env (encCmd c ++ rest)).out = .ok (cmdFrame c) (encCmd c).length := by
-  unfold parse1 parseG encCmd
-  apply parseD_encode codec1 codec1_good env.mem env.depth (cmdFrame c)
-  · have := depthList_bulk c
-    simp only [cmdFrame, Val.depth]
-    have := hok.1
-    omega
-  · simp [cmdFrame, Val.wf, hok.2, wfList_bulk]
-  · exact hs
+  have h := parseD_encode codec1 codec1_good maxNesting codec1_fixed env.mem env.depth 0 (cmdFrame c)
+    (by have := depthList_bulk c; simp only [cmdFrame, Val.depth]; unfold CmdOK at hok; omega)
+    (by simp [cmdFrame, Val.arr, arrList_bulk, maxNesting])
+    (by simp [cmdFrame, Val.wf, wfList_bulk]) rest hs
+  have hsan : (cmdFrame c).san = cmdFrame c := by simp [cmdFrame, Val.san, sanList_bulk]
+  rw [hsan] at h
+  exact h
 
 /-- a proper prefix of a command frame: the decoder waits -/
 theorem parse1_partial (env : Env) (c : Cmd) (buf ext : Bytes) (hok : CmdOK env c)
@@ -215,20 +224,20 @@ theorem parse1_partial (env : Env) (c : Cmd) (buf ext : Bytes) (hok : CmdOK env 
   | true => rfl
   | false =>
     exfalso
-    have hst := parseD_stable codec1 codec1_good env.mem env.depth buf ext (by rw [h]; exact hs) hd
+    have hst := parseD_stable codec1 codec1_good env.mem env.depth 0 buf ext (by rw [h]; exact hs) hd
     have hfull := parse1_frame env c [] hok (by simpa using hs)
     simp only [List.append_nil] at hfull
     unfold parse1 parseG at hfull hd
     rw [← h, hst] at hfull
-    have hcons := parseD_consumed codec1 codec1_good env.mem env.depth buf
+    have hcons := parseD_consumed codec1 codec1_good env.mem env.depth 0 buf
       (by unfold Small at *; rw [← h] at hs; simp at hs; omega) _ _ hfull
     rw [h] at hcons
     omega
 
 /-! ### the collectors and the sequential loop on well-formed input -/
 
-theorem collectGet_dead (fuel : Nat) (buf rest : Bytes) (cmds : List Cmd) (h : buf ++ rest = stream cmds) :
-    collectGet 14 fuel buf = some ([], buf) := by
+theorem collectGet_dead (ck : Bool) (fuel : Nat) (buf rest : Bytes) (cmds : List Cmd) (h : buf ++ rest = stream cmds) :
+    collectGet 14 ck fuel buf = some ([], buf) := by
   cases fuel with
   | zero => rfl
   | succ f =>
@@ -239,12 +248,12 @@ theorem collectGet_dead (fuel : Nat) (buf rest : Bytes) (cmds : List Cmd) (h : b
       rw [h.1, recogGet_nil]
     | cons c cs =>
       simp only [stream, List.map_cons, List.flatten_cons] at h
-      cases recogGet_dead buf rest _ c h with
+      cases recogGet_dead ck buf rest _ c h with
       | inl hh => rw [hh]
       | inr hh => rw [hh.1]
 
-theorem collectSet_dead (fuel : Nat) (buf rest : Bytes) (cmds : List Cmd) (h : buf ++ rest = stream cmds) :
-    collectSet 14 fuel buf = some ([], buf) := by
+theorem collectSet_dead (ck : Bool) (fuel : Nat) (buf rest : Bytes) (cmds : List Cmd) (h : buf ++ rest = stream cmds) :
+    collectSet 14 ck fuel buf = some ([], buf) := by
   cases fuel with
   | zero => rfl
   | succ f =>
@@ -255,7 +264,7 @@ theorem collectSet_dead (fuel : Nat) (buf rest : Bytes) (cmds : List Cmd) (h : b
       rw [h.1, recogSet_nil]
     | cons c cs =>
       simp only [stream, List.map_cons, List.flatten_cons] at h
-      cases recogSet_dead buf rest _ c h with
+      cases recogSet_dead ck buf rest _ c h with
       | inl hh => rw [hh]
       | inr hh => rw [hh.1]
 
@@ -268,17 +277,17 @@ theorem stream_cons (c : Cmd) (cs : List Cmd) : stream (c :: cs) = encCmd c ++ s
 theorem stream_append (a b : List Cmd) : stream (a ++ b) = stream a ++ stream b := by
   simp [stream]
 
-theorem fastPath_dead (inTx : Bool) (buf rest more : Bytes) (c : Cmd) (h : buf ++ rest = encCmd c ++ more) :
-    fastPath 14 inTx buf = .notFast ∨ (fastPath 14 inTx buf = .needMore ∧ buf.length < (encCmd c).length) := by
+theorem fastPath_dead (ck : Bool) (inTx : Bool) (buf rest more : Bytes) (c : Cmd) (h : buf ++ rest = encCmd c ++ more) :
+    fastPath 14 ck inTx buf = .notFast ∨ (fastPath 14 ck inTx buf = .needMore ∧ buf.length < (encCmd c).length) := by
   unfold fastPath
   split
   · exact Or.inl rfl
   · split
     · exact Or.inl rfl
-    · cases recogGet_dead buf rest more c h with
+    · cases recogGet_dead ck buf rest more c h with
       | inl hg =>
         rw [hg]
-        exact recogSet_dead buf rest more c h
+        exact recogSet_dead ck buf rest more c h
       | inr hg =>
         rw [hg.1]
         exact Or.inr ⟨rfl, hg.2⟩
@@ -316,7 +325,7 @@ theorem append_split' (a b c d : Bytes) (h : a ++ b = c ++ d) (hl : a.length < c
 
 /-- the sequential loop on a buffer that is a prefix of a well-formed stream executes exactly the
     complete frames in it, on the generic path, and keeps the incomplete tail -/
-theorem seqLoop_wf (cfg : Config) (h14 : cfg.headerLen = 14) (hdepth : 1 ≤ cfg.env.depth) :
+theorem seqLoop_wf (cfg : Config) (h14 : cfg.headerLen = 14) (hcodec : cfg.codec = codec1) (hdepth : 1 ≤ cfg.env.depth) :
     ∀ (cmds : List Cmd) (fuel : Nat) (buf rest : Bytes) (inTx : Bool),
       buf ++ rest = stream cmds → buf.length < fuel → Small (stream cmds) →
       (∀ c ∈ cmds, CmdOK cfg.env c) →
@@ -336,14 +345,15 @@ theorem seqLoop_wf (cfg : Config) (h14 : cfg.headerLen = 14) (hdepth : 1 ≤ cfg
     · cases fuel with
       | zero => simp at hf
       | succ f =>
-        have hp : (parse1 cfg.env []).out = .incomplete .empty := by
-          unfold parse1 parseG
+        have hp : (parseG codec1 cfg.env []).out = .incomplete .empty := by
+          unfold parseG
           cases hd : cfg.env.depth with
           | zero => omega
           | succ d => simp [parseD]
         unfold seqLoop
-        have hfp : fastPath cfg.headerLen inTx [] = .notFast := by
+        have hfp : fastPath cfg.headerLen cfg.checked inTx [] = .notFast := by
           unfold fastPath; cases inTx <;> simp
+        rw [hcodec]
         simp only [hfp, hp, execAll, List.map_nil]
   | cons c cs ih =>
     intro fuel buf rest inTx h hf hs hok
@@ -356,9 +366,9 @@ theorem seqLoop_wf (cfg : Config) (h14 : cfg.headerLen = 14) (hdepth : 1 ≤ cfg
       by_cases hle : (encCmd c).length ≤ buf.length
       · -- a complete frame is at the front
         obtain ⟨t, hbt, hrt⟩ := append_split buf rest (encCmd c) (stream cs) h hle
-        have hfp : fastPath cfg.headerLen inTx buf = .notFast := by
+        have hfp : fastPath cfg.headerLen cfg.checked inTx buf = .notFast := by
           rw [h14]
-          cases fastPath_dead inTx buf rest (stream cs) c h with
+          cases fastPath_dead cfg.checked inTx buf rest (stream cs) c h with
           | inl hh => exact hh
           | inr hh => omega
         have hsb : Small (encCmd c ++ t) := by
@@ -366,7 +376,8 @@ theorem seqLoop_wf (cfg : Config) (h14 : cfg.headerLen = 14) (hdepth : 1 ≤ cfg
           have := congrArg List.length hrt
           simp at hs this ⊢
           omega
-        have hp := parse1_frame cfg.env c t hokc hsb
+        have hp : (parseG codec1 cfg.env (encCmd c ++ t)).out = .ok (cmdFrame c) (encCmd c).length :=
+          parse1_frame cfg.env c t hokc hsb
         have hk1 : 1 ≤ (encCmd c).length := by
           rw [encCmd_eq]; simp
         have hscs : Small (stream cs) := by
@@ -377,7 +388,7 @@ theorem seqLoop_wf (cfg : Config) (h14 : cfg.headerLen = 14) (hdepth : 1 ≤ cfg
         refine ⟨c :: done, left, buf', tx', by simp [e1], ?_, e3, e4, ?_⟩
         · rw [hbt, stream_cons, e2]; simp
         · unfold seqLoop
-          rw [hfp]
+          rw [hcodec, hfp]
           simp only []
           rw [hbt, hp]
           simp only [List.drop_append_of_le_length (Nat.le_refl _), List.drop_length,
@@ -387,18 +398,19 @@ theorem seqLoop_wf (cfg : Config) (h14 : cfg.headerLen = 14) (hdepth : 1 ≤ cfg
       · -- only a proper prefix of the next frame is there
         have hlt : buf.length < (encCmd c).length := by omega
         obtain ⟨ext, hext⟩ := append_split' buf rest (encCmd c) (stream cs) h hlt
-        have hinc := parse1_partial cfg.env c buf ext hokc hext hlt hsc
+        have hinc : (parseG codec1 cfg.env buf).out.isIncomplete = true :=
+          parse1_partial cfg.env c buf ext hokc hext hlt hsc
         refine ⟨[], c :: cs, buf, inTx, rfl, by simp [stream], by rw [stream_cons]; exact h, ?_, ?_⟩
         · intro c' cs' hh
           cases hh
           exact hlt
         · unfold seqLoop
-          rw [h14]
-          cases fastPath_dead inTx buf rest (stream cs) c h with
+          rw [hcodec, h14]
+          cases fastPath_dead cfg.checked inTx buf rest (stream cs) c h with
           | inl hh =>
             rw [hh]
             simp only []
-            cases hout : (parse1 cfg.env buf).out with
+            cases hout : (parseG codec1 cfg.env buf).out with
             | incomplete k => simp [execAll]
             | ok v k => simp [hout, Outcome.isIncomplete] at hinc
             | error k => simp [hout, Outcome.isIncomplete] at hinc
@@ -415,7 +427,7 @@ theorem stream_len_le (a b : List Cmd) : (stream b).length ≤ (stream (a ++ b))
 
 /-- one `read()` on a well-formed stream: no batching, no fast path, no error — exactly the frames
     that are complete now are executed -/
-theorem onRead_wf (cfg : Config) (h14 : cfg.headerLen = 14) (hdepth : 1 ≤ cfg.env.depth)
+theorem onRead_wf (cfg : Config) (h14 : cfg.headerLen = 14) (hcodec : cfg.codec = codec1) (hdepth : 1 ≤ cfg.env.depth)
     (cmds : List Cmd) (b0 chunk rest : Bytes) (tx : Bool)
     (h : (b0 ++ chunk) ++ rest = stream cmds) (hs : Small (stream cmds))
     (hmax : (stream cmds).length ≤ cfg.maxBuffer) (hok : ∀ c ∈ cmds, CmdOK cfg.env c) :
@@ -426,14 +438,14 @@ theorem onRead_wf (cfg : Config) (h14 : cfg.headerLen = 14) (hdepth : 1 ≤ cfg.
   have hlen : (b0 ++ chunk).length ≤ (stream cmds).length := by
     rw [← h]; simp
   obtain ⟨done, left, buf', tx', e1, _, e3, e4, e5⟩ :=
-    seqLoop_wf cfg h14 hdepth cmds ((b0 ++ chunk).length + 1) (b0 ++ chunk) rest tx h (by omega) hs hok
+    seqLoop_wf cfg h14 hcodec hdepth cmds ((b0 ++ chunk).length + 1) (b0 ++ chunk) rest tx h (by omega) hs hok
   refine ⟨done, left, buf', tx', e1, e3, e4, ?_⟩
   unfold onRead
   have hmx : ¬ (b0.length + chunk.length > cfg.maxBuffer) := by
     simp at hlen; omega
   simp only [Bool.false_eq_true, if_false, hmx]
-  have hg := collectGet_dead ((b0 ++ chunk).length + 1) (b0 ++ chunk) rest cmds h
-  have hsd := collectSet_dead ((b0 ++ chunk).length + 1) (b0 ++ chunk) rest cmds h
+  have hg := collectGet_dead cfg.checked ((b0 ++ chunk).length + 1) (b0 ++ chunk) rest cmds h
+  have hsd := collectSet_dead cfg.checked ((b0 ++ chunk).length + 1) (b0 ++ chunk) rest cmds h
   have hgate : batchGate cfg tx ((b0 ++ chunk).length + 1) (b0 ++ chunk) = some ([], b0 ++ chunk) := by
     unfold batchGate
     rw [h14]
@@ -451,7 +463,7 @@ theorem onRead_wf (cfg : Config) (h14 : cfg.headerLen = 14) (hdepth : 1 ≤ cfg.
   simp
 
 /-- every `read()` of every segmentation -/
-theorem reads_wf (cfg : Config) (h14 : cfg.headerLen = 14) (hdepth : 1 ≤ cfg.env.depth) :
+theorem reads_wf (cfg : Config) (h14 : cfg.headerLen = 14) (hcodec : cfg.codec = codec1) (hdepth : 1 ≤ cfg.env.depth) :
     ∀ (chunks : List Bytes) (cmds : List Cmd) (b0 : Bytes) (tx : Bool) (acts : List Action),
       b0 ++ chunks.flatten = stream cmds → Small (stream cmds) → (stream cmds).length ≤ cfg.maxBuffer →
       (∀ c ∈ cmds, CmdOK cfg.env c) →
@@ -475,7 +487,7 @@ theorem reads_wf (cfg : Config) (h14 : cfg.headerLen = 14) (hdepth : 1 ≤ cfg.e
     intro cmds b0 tx acts h hs hmax hok _
     simp only [List.flatten_cons] at h
     obtain ⟨done, left, buf', tx', e1, e3, e4, e5⟩ :=
-      onRead_wf cfg h14 hdepth cmds b0 ch chunks.flatten tx (by simpa using h) hs hmax hok
+      onRead_wf cfg h14 hcodec hdepth cmds b0 ch chunks.flatten tx (by simpa using h) hs hmax hok
     simp only [List.foldl_cons, e5]
     have hsl : Small (stream left) := by
       have := stream_len_le done left
@@ -511,36 +523,36 @@ theorem flatMap_splitReads_flatten (n : Nat) (segs : List Bytes) :
 /-- MAIN LEMMA of C04: whatever the segmentation, the read size and the batching configuration,
     a connection that receives a well-formed pipeline executes every command exactly once, in
     order, on the generic path -/
-theorem run_wf (cfg : Config) (h14 : cfg.headerLen = 14) (hdepth : 1 ≤ cfg.env.depth)
+theorem run_wf (cfg : Config) (h14 : cfg.headerLen = 14) (hcodec : cfg.codec = codec1) (hdepth : 1 ≤ cfg.env.depth)
     (cmds : List Cmd) (segs : List Bytes) (h : segs.flatten = stream cmds)
     (hs : Small (stream cmds)) (hmax : (stream cmds).length ≤ cfg.maxBuffer)
     (hok : ∀ c ∈ cmds, CmdOK cfg.env c) :
     run cfg segs = execAll cmds := by
   unfold run feedSegs St.init
-  have := reads_wf cfg h14 hdepth (segs.flatMap (fun s => splitReads cfg.readSize s.length s)) cmds [] false []
+  have := reads_wf cfg h14 hcodec hdepth (segs.flatMap (fun s => splitReads cfg.readSize s.length s)) cmds [] false []
     (by simp [flatMap_splitReads_flatten, h]) hs hmax hok
     (by intro c cs _; have := encCmd_len_pos c; simp; omega)
   simpa using this
 
 /-! ### arbitrary bytes after a well-formed pipeline: the earlier commands are unaffected -/
 
-theorem collectGet_dead' (fuel : Nat) (buf rest more : Bytes) (c : Cmd) (h : buf ++ rest = encCmd c ++ more) :
-    collectGet 14 fuel buf = some ([], buf) := by
+theorem collectGet_dead' (ck : Bool) (fuel : Nat) (buf rest more : Bytes) (c : Cmd) (h : buf ++ rest = encCmd c ++ more) :
+    collectGet 14 ck fuel buf = some ([], buf) := by
   cases fuel with
   | zero => rfl
   | succ f =>
     unfold collectGet
-    cases recogGet_dead buf rest more c h with
+    cases recogGet_dead ck buf rest more c h with
     | inl hh => rw [hh]
     | inr hh => rw [hh.1]
 
-theorem collectSet_dead' (fuel : Nat) (buf rest more : Bytes) (c : Cmd) (h : buf ++ rest = encCmd c ++ more) :
-    collectSet 14 fuel buf = some ([], buf) := by
+theorem collectSet_dead' (ck : Bool) (fuel : Nat) (buf rest more : Bytes) (c : Cmd) (h : buf ++ rest = encCmd c ++ more) :
+    collectSet 14 ck fuel buf = some ([], buf) := by
   cases fuel with
   | zero => rfl
   | succ f =>
     unfold collectSet
-    cases recogSet_dead buf rest more c h with
+    cases recogSet_dead ck buf rest more c h with
     | inl hh => rw [hh]
     | inr hh => rw [hh.1]
 
@@ -553,7 +565,7 @@ def SeqJunk (cfg : Config) (cmds : List Cmd) (junk : Bytes) (fuel : Nat) (buf re
      (∃ c cs buf' tx', left = c :: cs ∧ buf' ++ rest = stream left ++ junk ∧
         buf'.length < (encCmd c).length ∧ seqLoop cfg fuel buf inTx = (execAll done, buf', tx', false)))
 
-theorem seqLoop_junk (cfg : Config) (h14 : cfg.headerLen = 14) (junk : Bytes) :
+theorem seqLoop_junk (cfg : Config) (h14 : cfg.headerLen = 14) (hcodec : cfg.codec = codec1) (junk : Bytes) :
     ∀ (cmds : List Cmd) (fuel : Nat) (buf rest : Bytes) (inTx : Bool),
       buf ++ rest = stream cmds ++ junk → buf.length < fuel → Small (stream cmds ++ junk) →
       (∀ c ∈ cmds, CmdOK cfg.env c) → SeqJunk cfg cmds junk fuel buf rest inTx := by
@@ -574,9 +586,9 @@ theorem seqLoop_junk (cfg : Config) (h14 : cfg.headerLen = 14) (junk : Bytes) :
     | succ f =>
       by_cases hle : (encCmd c).length ≤ buf.length
       · obtain ⟨t, hbt, hrt⟩ := append_split buf rest (encCmd c) (stream cs ++ junk) h hle
-        have hfp : fastPath cfg.headerLen inTx buf = .notFast := by
+        have hfp : fastPath cfg.headerLen cfg.checked inTx buf = .notFast := by
           rw [h14]
-          cases fastPath_dead inTx buf rest (stream cs ++ junk) c h with
+          cases fastPath_dead cfg.checked inTx buf rest (stream cs ++ junk) c h with
           | inl hh => exact hh
           | inr hh => omega
         have hsb : Small (encCmd c ++ t) := by
@@ -584,7 +596,8 @@ theorem seqLoop_junk (cfg : Config) (h14 : cfg.headerLen = 14) (junk : Bytes) :
           have := congrArg List.length hrt
           simp at hs this ⊢
           omega
-        have hp := parse1_frame cfg.env c t hokc hsb
+        have hp : (parseG codec1 cfg.env (encCmd c ++ t)).out = .ok (cmdFrame c) (encCmd c).length :=
+          parse1_frame cfg.env c t hokc hsb
         have hscs : Small (stream cs ++ junk) := by
           unfold Small at *; simp at hs ⊢; omega
         obtain ⟨done, left, e1, e2⟩ :=
@@ -596,7 +609,7 @@ theorem seqLoop_junk (cfg : Config) (h14 : cfg.headerLen = 14) (junk : Bytes) :
              (seqLoop cfg f t (txAfter inTx (cmdFrame c))).2.2.1,
              (seqLoop cfg f t (txAfter inTx (cmdFrame c))).2.2.2) := by
           conv => lhs; unfold seqLoop
-          rw [hfp]
+          rw [hcodec, hfp]
           simp only []
           rw [hbt, hp]
           simp only [List.drop_append_of_le_length (Nat.le_refl _), List.drop_length, List.nil_append]
@@ -616,15 +629,16 @@ theorem seqLoop_junk (cfg : Config) (h14 : cfg.headerLen = 14) (junk : Bytes) :
           simp [execAll]
       · have hlt : buf.length < (encCmd c).length := by omega
         obtain ⟨ext, hext⟩ := append_split' buf rest (encCmd c) (stream cs ++ junk) h hlt
-        have hinc := parse1_partial cfg.env c buf ext hokc hext hlt hsc
+        have hinc : (parseG codec1 cfg.env buf).out.isIncomplete = true :=
+          parse1_partial cfg.env c buf ext hokc hext hlt hsc
         refine ⟨[], c :: cs, rfl, Or.inr ⟨c, cs, buf, inTx, rfl, by rw [stream_cons, List.append_assoc]; exact h, hlt, ?_⟩⟩
         unfold seqLoop
-        rw [h14]
-        cases fastPath_dead inTx buf rest (stream cs ++ junk) c h with
+        rw [hcodec, h14]
+        cases fastPath_dead cfg.checked inTx buf rest (stream cs ++ junk) c h with
         | inl hh =>
           rw [hh]
           simp only []
-          cases hout : (parse1 cfg.env buf).out with
+          cases hout : (parseG codec1 cfg.env buf).out with
           | incomplete k => simp [execAll]
           | ok v k => simp [hout, Outcome.isIncomplete] at hinc
           | error k => simp [hout, Outcome.isIncomplete] at hinc
@@ -646,7 +660,7 @@ theorem reads_append (cfg : Config) : ∀ (chunks : List Bytes) (st : St) (acts 
     obtain ⟨tail, ht⟩ := ih (onRead cfg st c).1 (acts ++ (onRead cfg st c).2)
     exact ⟨(onRead cfg st c).2 ++ tail, by rw [ht]; simp⟩
 
-theorem reads_junk (cfg : Config) (h14 : cfg.headerLen = 14) (junk : Bytes) :
+theorem reads_junk (cfg : Config) (h14 : cfg.headerLen = 14) (hcodec : cfg.codec = codec1) (junk : Bytes) :
     ∀ (chunks : List Bytes) (cmds : List Cmd) (b0 : Bytes) (tx : Bool) (acts : List Action),
       b0 ++ chunks.flatten = stream cmds ++ junk → Small (stream cmds ++ junk) →
       (stream cmds ++ junk).length ≤ cfg.maxBuffer → (∀ c ∈ cmds, CmdOK cfg.env c) →
@@ -684,10 +698,10 @@ theorem reads_junk (cfg : Config) (h14 : cfg.headerLen = 14) (junk : Bytes) :
         unfold batchGate
         rw [h14]
         split
-        · rw [collectGet_dead' _ _ _ _ c h']
+        · rw [collectGet_dead' cfg.checked _ _ _ _ c h']
           simp only []
           split
-          · rw [collectSet_dead' _ _ _ _ c h']
+          · rw [collectSet_dead' cfg.checked _ _ _ _ c h']
             simp [batchActs]
           · simp [batchActs]
         · rfl
@@ -700,7 +714,7 @@ theorem reads_junk (cfg : Config) (h14 : cfg.headerLen = 14) (junk : Bytes) :
         simp only [Bool.false_eq_true, if_false, hmx]
         rw [hgate]
         simp
-      obtain ⟨done, left, e1, e2⟩ := seqLoop_junk cfg h14 junk (c :: cs) ((b0 ++ ch).length + 1) (b0 ++ ch)
+      obtain ⟨done, left, e1, e2⟩ := seqLoop_junk cfg h14 hcodec junk (c :: cs) ((b0 ++ ch).length + 1) (b0 ++ ch)
         chunks.flatten tx (by rw [List.append_assoc]; exact h) (by omega) hs hok
       simp only [List.foldl_cons, hread]
       cases e2 with
@@ -735,15 +749,297 @@ theorem reads_junk (cfg : Config) (h14 : cfg.headerLen = 14) (junk : Bytes) :
 /-- whatever follows a well-formed pipeline — garbage, truncated frames, frames that make the
     recognisers or the decoder panic — and however everything is segmented: the commands of the
     pipeline are executed exactly once, in order, before anything else happens -/
-theorem run_junk (cfg : Config) (h14 : cfg.headerLen = 14)
+theorem run_junk (cfg : Config) (h14 : cfg.headerLen = 14) (hcodec : cfg.codec = codec1)
     (cmds : List Cmd) (junk : Bytes) (segs : List Bytes) (h : segs.flatten = stream cmds ++ junk)
     (hs : Small (stream cmds ++ junk)) (hmax : (stream cmds ++ junk).length ≤ cfg.maxBuffer)
     (hok : ∀ c ∈ cmds, CmdOK cfg.env c) :
     ∃ tail, run cfg segs = execAll cmds ++ tail := by
   unfold run feedSegs St.init
-  obtain ⟨tail, ht⟩ := reads_junk cfg h14 junk (segs.flatMap (fun s => splitReads cfg.readSize s.length s)) cmds [] false []
+  obtain ⟨tail, ht⟩ := reads_junk cfg h14 hcodec junk (segs.flatMap (fun s => splitReads cfg.readSize s.length s)) cmds [] false []
     (by simp [flatMap_splitReads_flatten, h]) hs hmax hok
     (by intro c cs _; have := encCmd_len_pos c; simp; omega)
   exact ⟨tail, by simpa using ht⟩
+
+/-! ### no panic in the recognisers once their arithmetic is checked; no crash of the connection -/
+
+theorem addU_checked (a b r : Nat) (h : addU true a b = some r) : r = a + b ∧ a + b < W := by
+  unfold addU at h
+  simp only [if_true] at h
+  split at h
+  · simp at h; omega
+  · simp at h
+
+theorem addU2_checked (a b t : Nat) (h : (addU true a b).bind (fun e => addU true e 2) = some t) :
+    t = a + b + 2 ∧ a + b + 2 < W := by
+  cases h1 : addU true a b with
+  | none => simp [h1] at h
+  | some e =>
+    simp [h1] at h
+    have := addU_checked a b e h1
+    have := addU_checked e 2 t h
+    omega
+
+theorem slice_some (buf : Bytes) (a b : Nat) (h1 : a ≤ b) (h2 : b ≤ buf.length) :
+    slice buf a b = some ((buf.take b).drop a) := by
+  unfold slice
+  have : ¬ (a > b ∨ b > buf.length) := by omega
+  simp [this]
+
+theorem recogGet_no_crash (h : Nat) (buf : Bytes) : recogGet h true buf ≠ .crash := by
+  unfold recogGet
+  split
+  · simp
+  · split
+    · simp
+    · simp only []
+      split
+      · simp
+      · split
+        · simp
+        · split
+          · simp
+          · rename_i keyLen _
+            split
+            · simp
+            · rename_i total ht
+              have := addU2_checked _ _ _ ht
+              split
+              · simp
+              · rename_i hlen
+                unfold W at this
+                rw [Nat.mod_eq_of_lt (by unfold W; omega)]
+                rw [slice_some buf _ _ (by omega) (by omega)]
+                simp
+
+theorem recogSet_no_crash (h : Nat) (buf : Bytes) : recogSet h true buf ≠ .crash := by
+  unfold recogSet
+  split
+  · simp
+  · split
+    · simp
+    · simp only []
+      split
+      · simp
+      · split
+        · simp
+        · split
+          · simp
+          · rename_i keyLen _
+            split
+            · simp
+            · rename_i keyEnd vls hke
+              rename_i kcrlf _ _ _ _
+              have hke' : keyEnd = h + 1 + kcrlf + 2 + keyLen ∧ vls = keyEnd + 2 ∧ vls < W := by
+                cases h1 : addU true (h + 1 + kcrlf + 2) keyLen with
+                | none => simp [h1] at hke
+                | some e =>
+                  cases h2 : addU true e 2 with
+                  | none => simp [h1, h2] at hke
+                  | some v =>
+                    simp [h1, h2] at hke
+                    obtain ⟨he, hv⟩ := hke
+                    subst he hv
+                    have a1 := addU_checked _ _ _ h1
+                    have a2 := addU_checked _ _ _ h2
+                    exact ⟨a1.1, a2.1, by omega⟩
+              simp only [if_true]
+              by_cases hnm : buf.length ≤ vls
+              · rw [if_pos hnm]; simp
+              · rw [if_neg hnm, if_neg (by omega : ¬ vls ≥ buf.length)]
+                by_cases h36 : buf[vls]? ≠ some 36
+                · rw [if_pos h36]; simp
+                · rw [if_neg h36]
+                  cases hm : memchrCR (buf.drop (vls + 1)) with
+                  | none => simp
+                  | some vcrlf =>
+                    simp only []
+                    cases hpu : parseUsize ((buf.drop (vls + 1)).take vcrlf) with
+                    | none => simp
+                    | some valLen =>
+                      simp only []
+                      cases hadd : (addU true (vls + 1 + vcrlf + 2) valLen).bind (fun e => addU true e 2) with
+                      | none => simp
+                      | some total =>
+                        simp only []
+                        have ht' := addU2_checked _ _ _ hadd
+                        by_cases hlen : buf.length < total
+                        · rw [if_pos hlen]; simp
+                        · rw [if_neg hlen]
+                          unfold W at ht' hke'
+                          rw [Nat.mod_eq_of_lt (by unfold W; omega)]
+                          rw [slice_some buf _ keyEnd (by omega) (by omega)]
+                          rw [slice_some buf _ _ (by omega) (by omega)]
+                          simp
+
+theorem collectGet_ok (h : Nat) : ∀ (f : Nat) (buf : Bytes),
+    ∃ ks r, collectGet h true f buf = some (ks, r) ∧ r.length ≤ buf.length := by
+  intro f
+  induction f with
+  | zero => intro buf; exact ⟨[], buf, rfl, Nat.le_refl _⟩
+  | succ f ih =>
+    intro buf
+    unfold collectGet
+    cases hr : recogGet h true buf with
+    | get key total =>
+      obtain ⟨ks, r, e1, e2⟩ := ih (buf.drop total)
+      simp only [e1]
+      exact ⟨_, r, rfl, by simp at e2; omega⟩
+    | crash => exact absurd hr (recogGet_no_crash h buf)
+    | set k v t => exact ⟨[], buf, rfl, Nat.le_refl _⟩
+    | needMore => exact ⟨[], buf, rfl, Nat.le_refl _⟩
+    | notFast => exact ⟨[], buf, rfl, Nat.le_refl _⟩
+
+theorem collectSet_ok (h : Nat) : ∀ (f : Nat) (buf : Bytes),
+    ∃ ks r, collectSet h true f buf = some (ks, r) ∧ r.length ≤ buf.length := by
+  intro f
+  induction f with
+  | zero => intro buf; exact ⟨[], buf, rfl, Nat.le_refl _⟩
+  | succ f ih =>
+    intro buf
+    unfold collectSet
+    cases hr : recogSet h true buf with
+    | set key val total =>
+      obtain ⟨ks, r, e1, e2⟩ := ih (buf.drop total)
+      simp only [e1]
+      exact ⟨_, r, rfl, by simp at e2; omega⟩
+    | crash => exact absurd hr (recogSet_no_crash h buf)
+    | get k t => exact ⟨[], buf, rfl, Nat.le_refl _⟩
+    | needMore => exact ⟨[], buf, rfl, Nat.le_refl _⟩
+    | notFast => exact ⟨[], buf, rfl, Nat.le_refl _⟩
+
+def hasCrash : List Action → Bool
+  | [] => false
+  | .crash :: _ => true
+  | _ :: rest => hasCrash rest
+
+theorem hasCrash_append (a b : List Action) : hasCrash (a ++ b) = (hasCrash a || hasCrash b) := by
+  induction a with
+  | nil => simp [hasCrash]
+  | cons x xs ih => cases x <;> simp [hasCrash, ih]
+
+theorem hasCrash_map_exec (fs : List Val) : hasCrash (fs.map (fun g => Action.exec g .batch)) = false := by
+  induction fs with
+  | nil => simp [hasCrash]
+  | cons x xs ih => simpa [hasCrash] using ih
+
+theorem hasCrash_map_dropped (fs : List Val) : hasCrash (fs.map Action.dropped) = false := by
+  induction fs with
+  | nil => simp [hasCrash]
+  | cons x xs ih => simpa [hasCrash] using ih
+
+theorem hasCrash_batchActs (cfg : Config) (fs : List Val) : hasCrash (batchActs cfg fs) = false := by
+  unfold batchActs
+  split
+  · exact hasCrash_map_exec fs
+  · exact hasCrash_map_dropped fs
+
+theorem fastPath_no_crash (h : Nat) (inTx : Bool) (buf : Bytes) : fastPath h true inTx buf ≠ .crash := by
+  unfold fastPath
+  split
+  · simp
+  · split
+    · simp
+    · cases hg : recogGet h true buf with
+      | crash => exact absurd hg (recogGet_no_crash h buf)
+      | notFast => exact recogSet_no_crash h buf
+      | get k t => simp
+      | set k v t => simp
+      | needMore => simp
+
+/-- the sequential loop of the repaired code never panics -/
+theorem seqLoop_no_crash (cfg : Config) (hck : cfg.checked = true) (hcodec : cfg.codec = codec1)
+    (hd : maxNesting + 1 ≤ cfg.env.depth) :
+    ∀ (f : Nat) (buf : Bytes) (inTx : Bool), Small buf →
+      hasCrash (seqLoop cfg f buf inTx).1 = false ∧ (seqLoop cfg f buf inTx).2.2.2 = false := by
+  intro f
+  induction f with
+  | zero => intro buf inTx _; simp [seqLoop, hasCrash]
+  | succ f ih =>
+    intro buf inTx hs
+    unfold seqLoop
+    rw [hck, hcodec]
+    cases hfp : fastPath cfg.headerLen true inTx buf with
+    | crash => exact absurd hfp (fastPath_no_crash _ _ _)
+    | get key total =>
+      have := ih (buf.drop total) inTx (hs.drop total)
+      simp only []
+      exact ⟨by simpa [hasCrash] using this.1, this.2⟩
+    | set key val total =>
+      have := ih (buf.drop total) inTx (hs.drop total)
+      simp only []
+      exact ⟨by simpa [hasCrash] using this.1, this.2⟩
+    | needMore => simp [hasCrash]
+    | notFast =>
+      simp only []
+      have hnc := parseD_no_crash codec1 codec1_good maxNesting codec1_fixed cfg.env.mem cfg.env.depth 0 buf
+        (Nat.zero_le _) (by omega) hs
+      unfold NoCrash at hnc
+      cases hout : (parseG codec1 cfg.env buf).out with
+      | ok v k =>
+        have := ih (buf.drop k) (txAfter inTx v) (hs.drop k)
+        simp only []
+        exact ⟨by simpa [hasCrash] using this.1, this.2⟩
+      | incomplete _ => simp [hasCrash]
+      | error _ => simp [hasCrash]
+      | crash k =>
+        unfold parseG at hout
+        rw [hout] at hnc
+        simp [Outcome.isCrash] at hnc
+
+theorem onRead_no_crash (cfg : Config) (hck : cfg.checked = true) (hcodec : cfg.codec = codec1)
+    (hd : maxNesting + 1 ≤ cfg.env.depth) (hmax : cfg.maxBuffer < 72057594037927936) (st : St) (chunk : Bytes) :
+    hasCrash (onRead cfg st chunk).2 = false := by
+  unfold onRead
+  split
+  · simp [hasCrash]
+  · split
+    · simp [hasCrash]
+    · rename_i hnov
+      simp only []
+      have hs : Small (st.buf ++ chunk) := by
+        unfold Small; simp; omega
+      have hgate : ∃ a b, batchGate cfg st.inTx ((st.buf ++ chunk).length + 1) (st.buf ++ chunk) = some (a, b) ∧
+          hasCrash a = false ∧ b.length ≤ (st.buf ++ chunk).length := by
+        unfold batchGate
+        rw [hck]
+        split
+        · obtain ⟨ks, r, e1, e2⟩ := collectGet_ok cfg.headerLen ((st.buf ++ chunk).length + 1) (st.buf ++ chunk)
+          rw [e1]
+          simp only []
+          split
+          · obtain ⟨ks2, r2, e3, e4⟩ := collectSet_ok cfg.headerLen ((st.buf ++ chunk).length + 1) r
+            rw [e3]
+            exact ⟨_, r2, rfl, by simp [hasCrash_append, hasCrash_batchActs], by omega⟩
+          · exact ⟨_, r, rfl, hasCrash_batchActs _ _, e2⟩
+        · exact ⟨[], _, rfl, rfl, Nat.le_refl _⟩
+      obtain ⟨a, b, e1, e2, e3⟩ := hgate
+      rw [e1]
+      simp only []
+      have hsb : Small b := by unfold Small at *; omega
+      have := seqLoop_no_crash cfg hck hcodec hd ((st.buf ++ chunk).length + 1) b st.inTx hsb
+      rw [hasCrash_append, e2, this.1]
+      rfl
+
+theorem reads_no_crash (cfg : Config) (hck : cfg.checked = true) (hcodec : cfg.codec = codec1)
+    (hd : maxNesting + 1 ≤ cfg.env.depth) (hmax : cfg.maxBuffer < 72057594037927936) :
+    ∀ (chunks : List Bytes) (st : St) (acts : List Action), hasCrash acts = false →
+      hasCrash (chunks.foldl (fun (acc : St × List Action) c =>
+        let (s', a) := onRead cfg acc.1 c; (s', acc.2 ++ a)) (st, acts)).2 = false := by
+  intro chunks
+  induction chunks with
+  | nil => intro st acts h; simpa using h
+  | cons c cs ih =>
+    intro st acts h
+    simp only [List.foldl_cons]
+    apply ih
+    rw [hasCrash_append, h, onRead_no_crash cfg hck hcodec hd hmax st c]
+    rfl
+
+/-- NO CRASH of the connection, whatever bytes arrive in whatever segments -/
+theorem run_no_crash (cfg : Config) (hck : cfg.checked = true) (hcodec : cfg.codec = codec1)
+    (hd : maxNesting + 1 ≤ cfg.env.depth) (hmax : cfg.maxBuffer < 72057594037927936) (segs : List Bytes) :
+    hasCrash (run cfg segs) = false := by
+  unfold run feedSegs
+  exact reads_no_crash cfg hck hcodec hd hmax _ _ _ rfl
 
 end RedisVerif.Conn
